@@ -612,3 +612,60 @@ def rule_D1c(text):
     ls = text.rfind('\n', 0, m.start()) + 1
     new = 'let verif_v = %s;\n' % m.group(4) + text[ls:m.start()] + 'for %s in 0..verif_v.len() {\n let (%s, %s) = verif_v[%s];' % (m.group(1), m.group(2), m.group(3), m.group(1))
     return text[:ls] + new + text[m.end():], 1
+
+
+def split_top_and(s):
+    parts, depth, cur = [], 0, []
+    j = 0
+    while j < len(s):
+        k = _skip_trivia(s, j)
+        if k is not None:
+            cur.append(s[j:k]); j = k
+            continue
+        c = s[j]
+        if c in '([{':
+            depth += 1
+        elif c in ')]}':
+            depth -= 1
+        if depth == 0 and s.startswith('&&', j):
+            parts.append(''.join(cur)); cur = []
+            j += 2
+            continue
+        cur.append(c)
+        j += 1
+    parts.append(''.join(cur))
+    return [x.strip() for x in parts]
+
+
+def rule_D4g(text):
+    """general let-chain without else: `if C1 && let P = E && C3 { B }` -> `if C1 { if let P = E { if C3 { B } } }`
+    (left-to-right short-circuit evaluation is exactly the nesting order)"""
+    n = 0
+    pos = 0
+    while True:
+        m = re.compile(r'\bif\s').search(text, pos)
+        if not m:
+            break
+        mb = find_top(text, r'\{', m.end(), None)
+        if not mb:
+            break
+        cond = text[m.end():mb.start()]
+        if ' let ' not in (' ' + cond) or '&&' not in cond:
+            pos = m.end()
+            continue
+        ob = mb.start()
+        cb = match_close(text, ob)
+        if re.match(r'\s*else\b', text[cb + 1:]):
+            pos = m.end()
+            continue
+        parts = split_top_and(cond)
+        if not any(p.startswith('let ') for p in parts):
+            pos = m.end()
+            continue
+        inner = text[ob + 1:cb]
+        head = ''.join(('if %s {\n' % p) for p in parts)
+        new = head + inner + '}\n' * len(parts)
+        text = text[:m.start()] + new + text[cb + 1:]
+        n += 1
+        pos = m.start() + len(head)
+    return text, n
